@@ -444,7 +444,7 @@ func init() {
 		ID:    "C02",
 		Level: "model_checking",
 		Rule: "sender-small: the real sender serves every target over a 2-3 letter alphabet (incl. bytes >= 0x80) up to length L against every basis of the same universe under every legal head with block length 1..k and strong length 16 (and 2): every alignment, repetition, duplicate block, remainder shape and natural weak-checksum collision at that scale; each response is checked for index/head echo, exact denotation over the basis and MD4(seed||target) trailer. " +
-			"receiver-small: the real receiver is fed every token stream of <=3 (4) tokens over {literal a, literal fe, literal a·fe, ref i for every i} for every basis of length <=4 and block length 1..3 and must write exactly the denotation; receiver-large: 19 streams at the scale other senders produce (single literal tokens of 32767..3 MiB+1 bytes, 600001 bytes in tokens of 1000/4092/32768/262151, 131072-byte blocks in reverse order with the short block first, 3000 8-byte blocks reversed / one block 3000 times / alternating with 1-byte literals, a block repeated 2000 times, empty stream). sender-large (thorough): structured layouts with block lengths 700..131072 built from all edit scripts of depth <=3. " +
+			"receiver-small: the real receiver is fed every token stream of <=3 (4) tokens over {literal a, literal fe, literal a·fe, ref i for every i} for every basis of length <=4 and block length 1..3 and must write exactly the denotation; receiver-large: 19 streams at the scale other senders produce (single literal tokens of 32767..3 MiB+1 bytes, 600001 bytes in tokens of 1000/4092/32768/262151, 131072-byte blocks in reverse order with the short block first, 3000 8-byte blocks reversed / one block 3000 times / alternating with 1-byte literals, a block repeated 2000 times, empty stream). sender-large: structured layouts (copy of first/second/last/short block, literals of 1, B-1, B, B+1, 256 KiB+1 and 600001 bytes, weak-checksum twin of block 0) as all edit scripts of depth <=2 at block lengths 700, 2048 and — above the sender's 256 KiB read chunk — 262145 and 300000 (thorough: depth <=3 at 700..131072, depth 2 at 262144, 262145, 300000, 2^20). " +
 			"states = (target,basis,layout) or (basis,stream) triples, transitions = requests answered / streams applied; non-trivial = case with at least one response mixing literals and references (sender) or with block references available (receiver)",
 		Assum: []string{"refproto's MD4 (x/crypto) and weak checksum definitions are correct (cross-checked against each other by every accepted session)"},
 		Parts: func(tier string) []core.Part {
